@@ -233,7 +233,11 @@ func (ctx *genericEncrypter) Encrypt(plaintext []byte) (*JsonWebEncryption, erro
 // Implementation of encrypt method producing a JWE object.
 func (ctx *genericEncrypter) EncryptWithAuthData(plaintext, aad []byte) (*JsonWebEncryption, error) {
 	obj := &JsonWebEncryption{}
-	obj.aad = aad
+	// An empty AAD value is the same as no AAD: the "aad" member must be absent
+	// then (RFC 7516, section 7.2.1), and a parsed object never has one.
+	if len(aad) > 0 {
+		obj.aad = aad
+	}
 
 	obj.protected = &rawHeader{
 		Enc: ctx.contentAlg,
